@@ -66,7 +66,8 @@ def tie_at_trigger(hist):
                     if h.is_sched:
                         continue
                     if any(t == sr.fin[1] for _, t in h.enters) or any(
-                            t == sr.fin[1] and kind != 'cancelled'
+                            t == sr.fin[1] and kind not in ('cancelled',
+                                                            'cexc')
                             for _, t, kind in h.exits):
                         return True
         if not trig:
@@ -80,7 +81,7 @@ def tie_at_trigger(hist):
                     if t == t_trig:
                         return True
                 for _, t, kind in h.exits:
-                    if t == t_trig and kind != 'cancelled' \
+                    if t == t_trig and kind not in ('cancelled', 'cexc') \
                             and h.nid != origin:
                         return True
     return False
